@@ -2383,8 +2383,12 @@ def _glom(target, spec, scope):
 
         return (scope.maps[0][MIN_MODE] or scope.maps[0][MODE])(target, spec, scope)
     except Exception as e:
-        scope.maps[1][CHILD_ERRORS].append(scope)
         scope.maps[0][CUR_ERROR] = e
+        if scope.maps[1].get(CUR_ERROR) is e:
+            # the parent already carries this very error: a child of the parent that was evaluated while this spec ran
+            # (an item of a lazy stream this spec consumes) raised it and is recorded; this spec is not another failure
+            raise
+        scope.maps[1][CHILD_ERRORS].append(scope)
         if NO_PYFRAME in scope.maps[1]:
             cur_scope = scope[UP]
             while NO_PYFRAME in cur_scope.maps[0]:
